@@ -4,6 +4,7 @@ import GoImap.Drive.C16
 import GoImap.Drive.C19
 import GoImap.Drive.C07
 import GoImap.Drive.C01
+import GoImap.Drive.C12
 open GoImap
 
 /-- one case per input line, tab-separated; the first field names the property -/
@@ -15,6 +16,7 @@ def dispatch (line : String) : String :=
   | "C19" :: rest => DriveC19.handle rest
   | "C07" :: rest => DriveC07.handle rest
   | "C01" :: rest => DriveC01.handle rest
+  | "C12" :: rest => DriveC12.handle rest
   | _ => "?\t0\tfail:unknown-property\t-"
 
 partial def loop (hin hout : IO.FS.Stream) : IO Unit := do
